@@ -87,6 +87,9 @@ type vxOps struct {
 	opened    int
 	closed    int
 	lockViol  int
+	echo      bool
+	gate      map[uint16]chan bool // per-tag gates: the implementation parks until released
+	onDestroy func(fid *SrvFid)    // optional: called from FidDestroy after the fid was logged
 }
 
 func (o *vxOps) note(op string, req *SrvReq) {
@@ -95,13 +98,20 @@ func (o *vxOps) note(op string, req *SrvReq) {
 		c.fidno = req.Fid.fid
 		c.user = req.Fid.User
 	}
+	vxLock()
 	if c.locks != 0 {
 		o.lockViol++
 	}
 	o.calls = append(o.calls, c)
+	vxUnlock()
 	vxEvent("ops:" + op)
 	if o.hook != nil {
 		o.hook(op, req)
+	}
+	if o.gate != nil {
+		if g, ok := o.gate[req.Tc.Tag]; ok {
+			<-g
+		}
 	}
 }
 
@@ -146,11 +156,24 @@ func (o *vxOps) Create(req *SrvReq) {
 }
 func (o *vxOps) Read(req *SrvReq) {
 	o.note("read", req)
-	o.answer(req, func() { req.RespondRread(o.data) })
+	o.answer(req, func() {
+		if o.echo {
+			// content determined by the request: the two low bytes of the offset
+			req.RespondRread([]byte{byte(req.Tc.Offset), byte(req.Tc.Offset >> 8)})
+			return
+		}
+		req.RespondRread(o.data)
+	})
 }
 func (o *vxOps) Write(req *SrvReq) {
 	o.note("write", req)
-	o.answer(req, func() { req.RespondRwrite(o.count) })
+	o.answer(req, func() {
+		if o.echo {
+			req.RespondRwrite(uint32(req.Tc.Offset) ^ 0x5a5a)
+			return
+		}
+		req.RespondRwrite(o.count)
+	})
 }
 func (o *vxOps) Clunk(req *SrvReq) {
 	o.note("clunk", req)
@@ -169,12 +192,17 @@ func (o *vxOps) Wstat(req *SrvReq) {
 	o.answer(req, func() { req.RespondRwstat() })
 }
 func (o *vxOps) FidDestroy(fid *SrvFid) {
+	vxLock()
 	if vxHeldLocks() != 0 {
 		o.lockViol++
 	}
 	o.destroyed = append(o.destroyed, fid)
 	o.destroyNo = append(o.destroyNo, fid.fid)
+	vxUnlock()
 	vxEvent("destroy")
+	if o.onDestroy != nil {
+		o.onDestroy(fid)
+	}
 }
 func (o *vxOps) ConnOpened(c *Conn) { o.opened++ }
 func (o *vxOps) ConnClosed(c *Conn) { o.closed++; vxEvent("connclosed") }
